@@ -833,6 +833,14 @@ pub fn plans(t: &Trace, rng: &mut Rng, budget: usize) -> Vec<Plan> {
                     extra.sort_by_key(|(i, _)| *i);
                     out.push(Plan { cut: *cut, durable_upto: *upto, extra, label: format!("cut{cut}-torn1") });
                 }
+                // ... and its mirror for multi-block writes: the first block lost, the rest landed
+                if sectors >= 16 {
+                    let mask: Vec<bool> = (0..sectors).map(|s| s >= 8).collect();
+                    let mut extra: Vec<(usize, Option<Vec<bool>>)> = pend.iter().filter(|i| *i != victim).map(|i| (*i, None)).collect();
+                    extra.push((*victim, Some(mask)));
+                    extra.sort_by_key(|(i, _)| *i);
+                    out.push(Plan { cut: *cut, durable_upto: *upto, extra, label: format!("cut{cut}-headlost") });
+                }
             }
         }
         // tearing of one pending write at sector granularity (others: random subset)
